@@ -262,6 +262,7 @@ def exec (m : M) (cmd : String) : P (M × List String) := do
       | "repulsing" => pure (LocalKind.repulsing extra)
       | "restart" => pure (LocalKind.restart extra.num.toNat)
       | "random" => pure LocalKind.randomSearch
+      | "annealing" => pure LocalKind.randomAnnealing
       | k => throw s!"kind? {k}"
     let cfg : LocalCfg := { kind := kind, nNeighbours := nNb, randRestP := rrp, geo := m.sp.geo }
     pure ({ m with d := { nInits := nInits, bst := { loc := some (cfg, { initL := initL }) } }, call := none, warm := [], steps := #[], byCall := #[] }, ["ok"])
